@@ -165,3 +165,48 @@ package sourcewalk
 //@   loop 0 invariant forall i int {sn.schema.Methods[i]} :: 0 <= i && i < len(sn.schema.Methods) ==> sn.schema.Methods[i] != nil && sn.schema.Methods[i].Request != nil
 //@   |   && sn.schema.Methods[i].Name == old(sn.schema.Methods[i].Name) && sn.schema.Methods[i].Response == old(sn.schema.Methods[i].Response)
 //@   |   && len(sn.schema.Methods[i].Request.Properties) < 2147483646 && (sn.schema.Methods[i].Response != nil ==> len(sn.schema.Methods[i].Response.Properties) < 2147483646)
+
+// ---- inline types are named from the parent path and the field name (C02, C13) ----------------------------
+// An object, oneof or enum declared inline in a field becomes a type nested in the field's parent. Its
+// name is the declared one, or CamelCase(field name) when none is declared: the name, the parent and the
+// inline schema reach the node constructor unchanged through every container level (array items, map
+// values), so the name depends on nothing but the parent path and the field. A set oneof arm of a parsed
+// schema holds a message (ASSUMED: free requires).
+//@ spec func inlineObj(f *schema_j5pb.ObjectField) *schema_j5pb.Object = as(*schema_j5pb.ObjectField_Object, f.Schema).Object
+//@ spec func inlineOneof(f *schema_j5pb.OneofField) *schema_j5pb.Oneof = as(*schema_j5pb.OneofField_Oneof, f.Schema).Oneof
+//@ spec func inlineEnum(f *schema_j5pb.EnumField) *schema_j5pb.Enum = as(*schema_j5pb.EnumField_Enum, f.Schema).Enum
+//@ func (*propertyNode).accept
+//@   assert at buildFieldNode#0 naming: arg1 == pn.parent && arg2 == camel(pn.schema.Name) && arg3 == pn.schema.Schema
+//@ func buildFieldNode
+//@   assert at buildFieldNode#0 items: arg1 == parent && arg2 == defaultNestingName && arg3 == as(*schema_j5pb.Field_Array, pn.Type).Array.Items
+//@   assert at buildFieldNode#1 values: arg1 == parent && arg2 == defaultNestingName && arg3 == as(*schema_j5pb.Field_Map, pn.Type).Map.ItemSchema
+//@   assert at replaceNestedObject#0 carried: arg1 == parent && arg2 == defaultNestingName && arg3 == as(*schema_j5pb.Field_Object, pn.Type).Object
+//@   assert at replaceNestedOneof#0 carried: arg1 == parent && arg2 == defaultNestingName && arg3 == as(*schema_j5pb.Field_Oneof, pn.Type).Oneof
+//@   assert at replaceNestedEnum#0 carried: arg1 == parent && arg2 == defaultNestingName && arg3 == as(*schema_j5pb.Field_Enum, pn.Type).Enum
+//@ func replaceNestedObject
+//@   free requires typeis(field.Schema, *schema_j5pb.ObjectField_Object) ==> inlineObj(field) != nil && len(inlineObj(field).Properties) < 2147483647
+//@   assert at newObjectSchemaNode#0 carried: arg1 == parent && arg2 != nil && arg2 == inlineObj(field)
+//@   assert at newObjectSchemaNode#0 default: old(field.Schema) == nil ==> arg2.Name == defaultName
+//@   assert at newObjectSchemaNode#0 unnamed: old(field.Schema) != nil && old(inlineObj(field).Name) == "" ==> arg2.Name == defaultName
+//@   assert at newObjectSchemaNode#0 named: old(field.Schema) != nil && old(inlineObj(field).Name) != "" ==> arg2.Name == old(inlineObj(field).Name)
+//@   assert at VisitObject#0 visited: arg0 == node
+//@ func replaceNestedOneof
+//@   free requires typeis(field.Schema, *schema_j5pb.OneofField_Oneof) ==> inlineOneof(field) != nil
+//@   assert at newOneofSchemaNode#0 carried: arg1 == parent && arg2 != nil && arg2 == inlineOneof(field)
+//@   assert at newOneofSchemaNode#0 default: old(field.Schema) == nil ==> arg2.Name == defaultName
+//@   assert at newOneofSchemaNode#0 unnamed: old(field.Schema) != nil && old(inlineOneof(field).Name) == "" ==> arg2.Name == defaultName
+//@   assert at newOneofSchemaNode#0 named: old(field.Schema) != nil && old(inlineOneof(field).Name) != "" ==> arg2.Name == old(inlineOneof(field).Name)
+//@   assert at VisitOneof#0 visited: arg0 == node
+//@ func replaceNestedEnum
+//@   free requires typeis(field.Schema, *schema_j5pb.EnumField_Enum) ==> inlineEnum(field) != nil
+//@   assert at newEnumNode#0 carried: arg1 == parent && arg2 != nil && arg2 == inlineEnum(field)
+//@   assert at newEnumNode#0 unnamed: old(inlineEnum(field).Name) == "" ==> arg2.Name == defaultName
+//@   assert at newEnumNode#0 named: old(inlineEnum(field).Name) != "" ==> arg2.Name == old(inlineEnum(field).Name)
+//@   assert at VisitEnum#0 visited: arg0 == node
+
+// SourceNode.child derives the source position of a sub-element: it builds a new path slice and reads
+// the location tree; it writes nothing that existed before (ASSUMED frame: its only other calls are
+// maps.Keys and a disabled log line).
+//@ func (SourceNode).child
+//@   opt assumed frame
+//@   modifies nothing
